@@ -159,7 +159,7 @@ def cases(ctx):
             yield case_of(toks, tag)
     if S == 0:
         ctx.exhaustive.append("every implemented opcode x every operand tuple of depth 0..arity+1 over the 15-value alphabet (arity<=2) / 6-value alphabet (arity 3-4); marker stacks of depth 0..7 for the permutation opcodes; operand grids for PICK/ROLL/SPLIT/NUM2BIN/LSHIFT/RSHIFT; IF/NOTIF x 19 predicate values x else/no-else x nesting")
-    for _ in range(1700 if t else 30):
+    for _ in range(6000 if t else 30):
         toks = gen_random(r, r.choice([5, 8, 12, 20, 35, 60]))
         if toks:
             yield case_of(toks, "random")
